@@ -428,9 +428,21 @@ func (r *run) runStream() {
 	var samples []map[string]any
 	lastJSON := ""
 	closed := false
+	// C15: histories that end in an input-caused encode error (over-limit batch)
+	over := ""
+	if prop == "C15" && t.Chance(core.Fault, 1, 120) {
+		over = overLimitKinds[t.Draw(core.Fault, len(overLimitKinds))]
+	}
 	for i := 0; i < hp.nBatches; i++ {
 		r.batch = i
-		b := r.genBatch(hp, i)
+		var b *batchIn
+		if over != "" && i == hp.nBatches-1 {
+			b = overLimitBatch(over)
+			r.fault("overlimit_" + over)
+			r.feats["overlimit"] = over
+		} else {
+			b = r.genBatch(hp, i)
+		}
 		var want []Item
 		if roundtrip {
 			want = b.canon()
